@@ -76,7 +76,7 @@ def min_required(tier):
 
 
 def run_seq(pool, ops, res):
-    w = pool.fresh(pids=PIDS + ["r"])
+    w = pool.fresh(pids=PIDS + ["r"], fmts=(None, "f1"))
     before = None
     ever_bound = set()
     for i, op in enumerate(ops):
@@ -130,7 +130,7 @@ def run_shard(mode, n, firsts, sub_seed):
     scratch = new_scratch("c03")
     contents = {k: make_content(v["cseed"], v["size"]) for k, v in SPEC.items()}
     try:
-        pool = WorldPool(scratch, contents, {})
+        pool = WorldPool(scratch, contents, {"d1": b"<doc/>"})
         if mode == "exh":
             menu = object_menu(PIDS, ["A", "B"], validations=False)
             layout = Layout(3, 2, "SHA-256", DEFAULT_NS)
@@ -161,6 +161,9 @@ def run_shard(mode, n, firsts, sub_seed):
             for k in range(n):
                 ops = []
                 for _ in range(30):
+                    if rng.random() < 0.15:
+                        ops.append({"op": "smeta", "pid": rng.choice(PIDS), "fmt": rng.choice([None, "f1"]), "doc": "d1", "kind": "path"})
+                        continue
                     op = random_object_op(rng, PIDS + ["r"], ["A", "B"], kinds=("path", "Path", "file", "bytesio", "bufreader"))
                     ops.append(op)
                 run_seq(pool, ops, res)
